@@ -661,8 +661,9 @@ def exec (p : Paint) (name : String) (ps : List Int) : XOut :=
         else .err p1
     | "FilledRectangle" => lift (fillRect p (g 0) (g 1) (g 2) (g 3)) 'u'
     | "TimeAPause" =>
-      -- `1000 * parameters[0] as u32` in u32
-      if 1000 * ((g 0) % 4294967296) > 4294967295 then .panic else .ok p 'z'
+      -- `1000u32.saturating_mul(parameters[0].max(0) as u32)` (repaired: the plain `1000 * parameters[0] as u32` overflowed
+      -- u32 for a negative count, which loop arithmetic can produce); the pause length is not part of the observation
+      .ok p 'z'
     | "PolymarkerPlot" => lift (drawPolyMarker p (g 0) (g 1)) 'u'
     | "TextEffects" =>
       if ¬ (g 0 = 0 ∨ g 0 = 1 ∨ g 0 = 2 ∨ g 0 = 4 ∨ g 0 = 8 ∨ g 0 = 16) then .err p
